@@ -194,7 +194,7 @@ func formatSelectorExpr(ctx *formatCtx, v *ast.SelectorExpr, ref *ast.Expr) {
 			break
 		}
 		if imp, ok := ctx.imports[x.Name]; ok {
-			if !fmtToBuiltin(imp, v.Sel, ref) {
+			if !fmtToBuiltin(ctx, imp, v.Sel, ref) {
 				imp.isUsed = true
 			}
 		}
